@@ -41,6 +41,7 @@ type ent struct {
 	Mode int64  `json:"mode"`
 	MT   int64  `json:"mtime,omitempty"` // unix seconds (tar cannot carry an unset mtime; 0 = epoch)
 	Data string `json:"data,omitempty"`
+	Cut  bool   `json:"cut,omitempty"` // the archive ends in the middle of this entry's data (truncated stream)
 }
 
 type tcase struct {
@@ -258,7 +259,14 @@ func buildTar(S string, es []ent) ([]byte, error) {
 			return nil, err
 		}
 		if e.Type == "file" {
-			if _, err := w.Write([]byte(e.Data)); err != nil {
+			d := []byte(e.Data)
+			if e.Cut {
+				if _, err := w.Write(d[:len(d)/2]); err != nil {
+					return nil, err
+				}
+				return buf.Bytes(), nil // truncated archive: no padding, no trailer
+			}
+			if _, err := w.Write(d); err != nil {
 				return nil, err
 			}
 		}
@@ -367,6 +375,9 @@ func runCase(c *tcase) *result {
 			if e.Link != "" {
 				fmt.Fprintf(&sb, " -> %q", e.Link)
 			}
+			if e.Cut {
+				sb.WriteString(" [archive truncated inside this entry's data]")
+			}
 			fmt.Fprintf(&sb, " mode=%#o mtime=%d\n", e.Mode, e.MT)
 		}
 		return sb.String()
@@ -432,6 +443,7 @@ func validEntries(names []string, rich bool) []ent {
 		a = append(a, ent{Name: n, Type: "symlink", Link: up(n) + "outside/dir", Mode: 0, MT: 0})
 		a = append(a, ent{Name: n, Type: "symlink", Link: ".", Mode: 0o777, MT: 0})
 		if rich {
+			a = append(a, ent{Name: n, Type: "symlink", Link: up(n) + "outside/new", Mode: 0o777, MT: mt2005})
 			a = append(a, ent{Name: n, Type: "file", Mode: 0, MT: 0, Data: ""})
 			a = append(a, ent{Name: n, Type: "symlink", Link: up(n) + "outside/victim", Mode: 0o777, MT: 0})
 			a = append(a, ent{Name: n, Type: "symlink", Link: "d", Mode: 0o777, MT: mt2005})
@@ -451,6 +463,7 @@ func invalidEntries(all bool) []ent {
 	}
 	a = append(a, ent{Name: "r/n", Type: "hardlink", Link: "$S/outside/victim", Mode: 0o777, MT: mt2005})
 	a = append(a, ent{Name: "r/..", Type: "dir", Mode: 0o777, MT: mt2005})
+	a = append(a, ent{Name: "r/n", Type: "file", Mode: 0o644, MT: mt2005, Data: strings.Repeat("0123456789", 300), Cut: true})
 	if all {
 		a = append(a, ent{Name: "r/f", Type: "hardlink", Link: "../outside/victim", Mode: 0o777, MT: mt2005})
 		a = append(a, ent{Name: "r/n", Type: "fifo", Mode: 0o777, MT: mt2005})
@@ -531,6 +544,7 @@ func roots(thorough bool) []ent {
 		{Name: "r", Type: "dir", Mode: 0, MT: 0},
 		{Name: "r", Type: "dir", Mode: 0o755, MT: mt2005},
 		{Name: "r", Type: "file", Mode: 0o644, MT: mt2005, Data: "rootfile"},
+		{Name: "r", Type: "file", Mode: 0o644, MT: mt2005, Data: strings.Repeat("0123456789", 300), Cut: true},
 		{Name: "lf", Type: "file", Mode: 0o777, MT: mt2005, Data: "rootfile"},
 		{Name: "l", Type: "file", Mode: 0o777, MT: mt2005, Data: "rootfile"},
 		{Name: "d", Type: "file", Mode: 0o777, MT: 0, Data: "rootfile"},
@@ -657,8 +671,8 @@ func explore(d *driver, tag string, targets []string, rootEnts []ent, depth int,
 		}
 		var next []*tcase
 		for i, c := range cur {
-			if !okv[i] {
-				continue
+			if !okv[i] || c.Ents[len(c.Ents)-1].Cut {
+				continue // a truncated archive cannot be extended
 			}
 			for _, e := range alpha(c, level) {
 				es := append(append(make([]ent, 0, len(c.Ents)+1), c.Ents...), e)
@@ -710,7 +724,9 @@ func main() {
 		explore(d, "main", targetStates, rs, 2, ma)
 		// 2. longer words over smaller alphabets below a directory root
 		if th {
+			explore(d, "main3", live[:2], dirRoot, 3, ma)
 			explore(d, "reduced", live, dirRoot, 3, fixed(reducedAlphabet()))
+			explore(d, "reduced4", live[:1], dirRoot, 4, fixed(reducedAlphabet()))
 			explore(d, "tiny", live[:1], dirRoot, 5, fixed(tinyAlphabet()))
 		} else {
 			explore(d, "tiny", live[:1], dirRoot, 3, fixed(tinyAlphabet()))
